@@ -225,6 +225,9 @@ def r09_7(ctx) -> None:
 
 
 def run(ctx) -> None:
+    # "plus the kid of a key picked from a key set": the key-selection rule of C14 (all routes into a set record / honour the kid)
+    from .c14 import r14_2
+    ctx.guard(r14_2, "R09.8")
     ctx.guard(r09_1)
     ctx.guard(r09_2_3)
     ctx.guard(r09_4_5)
